@@ -1,17 +1,22 @@
 package main
 
 import (
+	"bytes"
 	"fmt"
 	"math"
 	"reflect"
 	"strconv"
+	"strings"
 
+	"golang.org/x/image/font/gofont/goregular"
 	"seehuhn.de/go/postscript/cid"
 	"seehuhn.de/go/sfnt"
+	"seehuhn.de/go/sfnt/parser"
 
 	"seehuhn.de/go/pdf/font"
 	"seehuhn.de/go/pdf/font/cff"
 	"seehuhn.de/go/pdf/font/charcode"
+	"seehuhn.de/go/pdf/font/cmap"
 	"seehuhn.de/go/pdf/font/encoding/cidenc"
 	"seehuhn.de/go/pdf/font/encoding/simpleenc"
 	"seehuhn.de/go/pdf/font/gofont"
@@ -64,6 +69,7 @@ type tracer struct {
 	e    *common.Env
 	inst string
 	seq  *int
+	mute bool // probing instance: nothing is recorded
 }
 
 func (t *tracer) id() string {
@@ -72,10 +78,13 @@ func (t *tracer) id() string {
 }
 
 // tracedCID wraps a CIDEncoder and records every GetCode/Encode the embedder performs.
+// mode: 'U' UTF-8 encoder, 'F' identity encoder, 'G' NewFromCMap with the CMap table tbl.
 type tracedCID struct {
 	cidenc.CIDEncoder
-	t    *tracer
-	utf8 bool
+	t       *tracer
+	mode    byte
+	cids    map[cid.CID]bool // 'G': the CIDs the CMap has a code for
+	recoded bool             // 'G': the last Encode returned a code which the CMap maps to another CID
 }
 
 func (w *tracedCID) codeHex(c charcode.Code) string {
@@ -84,24 +93,37 @@ func (w *tracedCID) codeHex(c charcode.Code) string {
 
 func (w *tracedCID) GetCode(c cid.CID, text string) (charcode.Code, bool) {
 	code, ok := w.CIDEncoder.GetCode(c, text)
-	id := w.t.id()
-	op := "FG"
-	if w.utf8 {
-		op = "UG"
+	if w.t.mute {
+		return code, ok
 	}
-	w.t.e.Line("cases.txt", "%s %s %s %d %s", id, op, w.t.inst, c, thex(text))
-	if ok {
-		w.t.e.Line("impl.obs", "%s %s", id, w.codeHex(code))
-	} else {
+	id := w.t.id()
+	w.t.e.Line("cases.txt", "%s %cG %s %d %s", id, w.mode, w.t.inst, c, thex(text))
+	switch {
+	case !ok:
 		w.t.e.Line("impl.obs", "%s none", id)
+	case w.mode == 'G' && !w.cids[c]:
+		w.t.e.Line("impl.obs", "%s zero", id) // a CID without a code: the zero value of charcode.Code
+	default:
+		w.t.e.Line("impl.obs", "%s %s", id, w.codeHex(code))
 	}
 	return code, ok
 }
 
 func (w *tracedCID) Encode(c cid.CID, text string, width float64) (charcode.Code, error) {
 	code, err := w.CIDEncoder.Encode(c, text, width)
+	w.recoded = false
+	if w.mode == 'G' && err == nil {
+		for fc := range w.CIDEncoder.Codes(w.CIDEncoder.Codec().AppendCode(nil, code)) {
+			if fc.CID != c {
+				w.recoded = true
+			}
+		}
+	}
+	if w.t.mute {
+		return code, err
+	}
 	id := w.t.id()
-	if w.utf8 {
+	if w.mode == 'U' {
 		choice := "-"
 		obs := ""
 		switch err {
@@ -119,7 +141,7 @@ func (w *tracedCID) Encode(c cid.CID, text string, width float64) (charcode.Code
 		w.t.e.Line("cases.txt", "%s UE %s %d %s %s %s", id, w.t.inst, c, thex(text), wbits(width), choice)
 		w.t.e.Line("impl.obs", "%s %s", id, obs)
 	} else {
-		w.t.e.Line("cases.txt", "%s FE %s %d %s %s", id, w.t.inst, c, thex(text), wbits(width))
+		w.t.e.Line("cases.txt", "%s %cE %s %d %s %s", id, w.mode, w.t.inst, c, thex(text), wbits(width))
 		if err == nil {
 			w.t.e.Line("impl.obs", "%s ok %s", id, w.codeHex(code))
 		} else {
@@ -133,16 +155,65 @@ func wrapEncoder(t *tracer, utf8 bool) func(float64, font.WritingMode) cidenc.CI
 	return func(w0 float64, wm font.WritingMode) cidenc.CIDEncoder {
 		var inner cidenc.CIDEncoder
 		op := "FN"
+		mode := byte('F')
 		if utf8 {
 			inner = cidenc.NewCompositeUtf8(w0, wm)
 			op = "UN"
+			mode = 'U'
 		} else {
 			inner = cidenc.NewCompositeIdentity(w0, wm)
 		}
+		if !t.mute {
+			id := t.id()
+			t.e.Line("cases.txt", "%s %s %s %s", id, op, t.inst, wbits(w0))
+			t.e.Line("impl.obs", "%s new", id)
+		}
+		return &tracedCID{CIDEncoder: inner, t: t, mode: mode}
+	}
+}
+
+// CMap tables: the pairs cmap.All yields, written once per CMap.
+var tableCIDs = map[string]map[cid.CID]bool{}
+
+func cmapTable(t *tracer, name string, cm *cmap.File) map[cid.CID]bool {
+	if cids, ok := tableCIDs[name]; ok {
+		return cids
+	}
+	codec, err := cm.Codec()
+	if err != nil {
+		panic(err)
+	}
+	cids := map[cid.CID]bool{}
+	var sb strings.Builder
+	n := 0
+	for code, c := range cm.All(codec) {
+		fmt.Fprintf(&sb, " %s %d", common.Hex(codec.AppendCode(nil, code)), c)
+		cids[c] = true
+		n++
+	}
+	id := t.id()
+	t.e.Line("cases.txt", "%s GT %s %d%s", id, name, n, sb.String())
+	t.e.Line("impl.obs", "%s table", id)
+	tableCIDs[name] = cids
+	return cids
+}
+
+// wrapFromCMap: NewFromCMap with the CMap cm (registered under the table name).
+func wrapFromCMap(t *tracer, name string, cm *cmap.File) func(float64, font.WritingMode) cidenc.CIDEncoder {
+	return func(w0 float64, wm font.WritingMode) cidenc.CIDEncoder {
+		inner, err := cidenc.NewFromCMap(cm, w0)
+		if err != nil {
+			panic(err)
+		}
+		w := &tracedCID{CIDEncoder: inner, t: t, mode: 'G'}
+		if t.mute {
+			return w
+		}
+		w.cids = cmapTable(t, name, cm)
 		id := t.id()
-		t.e.Line("cases.txt", "%s %s %s %s", id, op, t.inst, wbits(w0))
+		t.e.Line("cases.txt", "%s GN %s %s %s", id, t.inst, name, wbits(w0))
 		t.e.Line("impl.obs", "%s new", id)
-		return &tracedCID{CIDEncoder: inner, t: t, utf8: utf8}
+		return w
 	}
 }
 
@@ -211,6 +282,12 @@ func allKinds() []kind {
 			}})
 		}
 	}
+	for _, name := range predefinedKinds {
+		name := name
+		res = append(res, kind{label: "Go5/" + name, composite: true, enc: "cmap", make: func(t *tracer) font.Layouter {
+			return goWithCMap(t, name)
+		}})
+	}
 	for _, s := range standard.All {
 		s := s
 		res = append(res, kind{label: "Std-" + s.PostScriptName(), enc: "simple", make: func(*tracer) font.Layouter {
@@ -219,4 +296,30 @@ func allKinds() []kind {
 		}})
 	}
 	return res
+}
+
+// predefinedKinds: Go Regular as a composite font whose encoder is NewFromCMap
+// of a predefined CMap (GID -> CID through the character collection's Unicode
+// mapping, as in font/cmap/predefinedext_test.go).
+var predefinedKinds = []string{"Adobe-Japan1-7", "UniJIS-UTF16-H", "UniJIS-UTF8-H", "90ms-RKSJ-H", "UniGB-UCS2-H", "UniJIS-UCS2-HW-H"}
+
+func goWithCMap(t *tracer, name string) font.Layouter {
+	cm, err := cmap.Predefined(name)
+	if err != nil {
+		panic(err)
+	}
+	info, err := sfnt.Read(bytes.NewReader(goregular.TTF), parser.NewBudget(int64(len(goregular.TTF))))
+	if err != nil {
+		panic(err)
+	}
+	lookup, err := info.CMapTable.GetBest()
+	if err != nil {
+		panic(err)
+	}
+	f, err := truetype.NewComposite(info, &truetype.OptionsComposite{
+		WritingMode:  cm.WMode,
+		MakeGIDToCID: func() cmap.GIDToCID { return cmap.NewGIDToCIDFromROS(cm.ROS, lookup) },
+		MakeEncoder:  wrapFromCMap(t, name, cm),
+	})
+	return must(f, err)
 }
